@@ -128,6 +128,26 @@ class Layout:
         if k in ('func', 'chan'):
             return [I]
         raise Unsupported('type %s' % t['s'])
+    def ref_slots(self, tid, depth=0):
+        """[(slot index in flatten order, number of array levels around it)] of the object references inside a value of
+        the type (pointers, interface values); map contents are not tracked."""
+        t = self.tt[tid]
+        k = t.get('k')
+        if self.scalar_sort(tid) is not None or depth > 6:
+            return []
+        if k == 'ptr':
+            return [(0, 0)]
+        if k in ('iface', 'typeparam'):
+            return [(0, 0)]
+        if k in ('slice', 'array'):
+            return [(i, n + 1) for (i, n) in self.ref_slots(t['e'], depth + 1)]
+        if k == 'struct':
+            out, base = [], 0
+            for f in t['f']:
+                out += [(base + i, n) for (i, n) in self.ref_slots(f['t'], depth + 1)]
+                base += len(self.sorts(f['t'], depth + 1))
+            return out
+        return []
     def flatten(self, v, tid):
         t = self.tt[tid]
         k = t.get('k')
